@@ -912,11 +912,19 @@ class Extractor:
     def block(self, stmts, env):
         env = dict(env)
         items = []
-        for st in stmts:
+        peeled = None
+        for si, st in enumerate(stmts):
             k = st["k"]
             if k == "item":
                 continue
+            if peeled is st:
+                continue                # consumed together with the `let` in front of it (see _peeled_join)
             if k == "let":
+                pj = self._peeled_join(stmts, si, env)
+                if pj is not None:
+                    items.append(pj)
+                    peeled = stmts[si + 1]
+                    continue
                 init = st.get("init")
                 if init is not None and self.is_sink(init) and st["pat"].get("k") == "ident":
                     self.sinks.add(st["pat"]["name"])
@@ -1344,6 +1352,113 @@ class Extractor:
         if not every_iteration:
             return None
         return Join(star.iter_text, sep, rest, star=star, line=star.line)
+
+    def _peeled_join(self, stmts, i, env):
+        """The separator idiom with the first iteration peeled off:
+            let mut IT = OVER;  if let Some(P) = IT.next() { ITEM(P); for Q in IT { SEP; ITEM(Q) } }
+        (also as `match IT.next() { Some(P) => {..}, None | _ => {} }`) writes ITEM for every element of OVER with SEP between two of
+        them, nothing for an empty OVER: Join(OVER, SEP, ITEM), the value of `for (i, x) in OVER.enumerate() { if i != 0 { SEP } ITEM }`.
+        Accepted only when IT is mentioned nowhere else in the function (exactly the `.next()` and the loop iterator, directly after its
+        `let`), the None side does nothing, and the template of the peeled statements equals a suffix of the loop body's template with the
+        pattern bound to the loop's item; the rest of the loop body (in front of it) is the separator and must write."""
+        st = stmts[i]
+        pat, init = st.get("pat") or {}, st.get("init")
+        if pat.get("k") != "ident" or pat.get("by_ref") or pat.get("sub") or st.get("else") is not None or init is None or i + 1 >= len(stmts):
+            return None
+        name = pat["name"]
+        nx = stmts[i + 1]
+        e = nx.get("e") if nx["k"] == "expr" else None
+        if not isinstance(e, dict):
+            return None
+
+        def nothing(x):
+            while isinstance(x, dict) and x.get("k") == "paren":
+                x = x["e"]
+            return x is None or (x.get("k") == "block" and not x.get("label") and not x["stmts"]) or (x.get("k") == "tuple" and not x["elems"])
+
+        def some_pat(p):
+            if p.get("k") == "tstruct" and _variant_name(p["path"]) == "Some" and len(p["elems"]) == 1 and p["elems"][0].get("k") != "rest":
+                return p["elems"][0]
+            return None
+
+        if e.get("k") == "if" and e["cond"].get("k") == "letcond" and nothing(e.get("else")):
+            head, scrut, then = some_pat(e["cond"]["pat"]), e["cond"]["e"], e["then"]["stmts"]
+        elif e.get("k") == "match" and len(e["arms"]) == 2 and not any(a.get("guard") for a in e["arms"]):
+            arms = sorted(e["arms"], key=lambda a: some_pat(a["pat"]) is None)
+            other = arms[1]["pat"]
+            is_none = other.get("k") == "wild" or (other.get("k") in ("path", "ident") and _variant_name(other.get("p") or other.get("name") or "") == "None")
+            if some_pat(arms[0]["pat"]) is None or not is_none or not nothing(arms[1]["body"]):
+                return None
+            body = arms[0]["body"]
+            if body.get("k") != "block" or body.get("label"):
+                return None
+            head, scrut, then = some_pat(arms[0]["pat"]), e["e"], body["stmts"]
+        else:
+            return None
+        if head is None or not (scrut.get("k") == "mcall" and scrut["m"] == "next" and not scrut["args"] and canon(scrut["recv"]) == name):
+            return None
+        if len(then) < 2 or then[-1]["k"] != "expr" or then[-1]["e"].get("k") != "for":
+            return None
+        loop = then[-1]["e"]
+        it = loop["iter"]
+        if it.get("k") == "mcall" and it["m"] in ("by_ref", "into_iter") and not it["args"]:
+            it = it["recv"]
+        if not (it.get("k") == "path" and "by_ref" not in it and it.get("p") == name) or self.mentions_sink(init):
+            return None
+        uses, binds, opaque = [0], [0], [False]
+        heads = set(pat_names(head))
+
+        def f(n, parents):
+            k = n.get("k")
+            if k == "path" and "by_ref" not in n and n.get("p") == name:
+                uses[0] += 1
+            elif k == "ident" and "by_ref" in n and n.get("name") == name:
+                binds[0] += 1
+            elif k == "macro" and n.get("args") is None and re.search(r"(?<![\w.])%s(?!\w)" % re.escape(name), n.get("tokens", "")):
+                opaque[0] = True
+        walk(self.fn["body"], f)
+        if uses[0] != 2 or binds[0] != 1 or opaque[0]:
+            return None
+        in_loop = [False]
+
+        def g(n, parents):
+            if n.get("k") == "path" and "by_ref" not in n and n.get("p") in heads:
+                in_loop[0] = True
+        walk(loop["body"], g)
+        if in_loop[0]:
+            return None
+        try:
+            whole = dict(loop)
+            whole["iter"] = init
+            env_loop = {k: v for k, v in env.items() if k not in heads}
+            lt = self._loop(whole, env_loop)
+            parts = lt.items if isinstance(lt, Seq) else [lt]
+            if not parts or type(parts[-1]) is not Star or writes(Seq(parts[:-1])):
+                return None
+            star = parts[-1]
+            self.depth += 1
+            try:
+                item_name = "#item" + ("" if self.depth == 1 else str(self.depth))
+                env_first = dict(env_loop)
+                for nm, v in irrefutable_bindings(head, mkpath(item_name)).items():
+                    if v is not None:
+                        env_first[nm] = v
+                first = self.block(then[:-1], env_first)
+            finally:
+                self.depth -= 1
+        except Unsupported:
+            return None
+        body = star.body.items if isinstance(star.body, Seq) else [star.body]
+        if not writes(first) or any(isinstance(a, (Exit, Jump)) for a in atoms_in(first)):
+            return None
+        for k in range(1, len(body)):
+            sep, rest = Seq(body[:k]), Seq(body[k:])
+            if rest.text() != first.text():
+                continue
+            if not writes(sep) or any(isinstance(a, (Hole, Raw)) and re.search(r"(?<![\w#])%s(?!\w)" % re.escape(item_name), a.expr) for a in atoms_in(sep)):
+                return None
+            return Seq(parts[:-1] + [Join(star.iter_text, sep, rest, star=star, line=star.line)])
+        return None
 
     def _loop(self, e, env):
         k = e["k"]
